@@ -17,15 +17,15 @@ FUNC_PROPS = {
     # plsql.go
     "ComparisonExpr": ["C01"], "AndExpr": ["C01"], "OrExpr": ["C01"], "NotExpr": ["C01"], "IsExpr": ["C01"],
     "BetweenExpr": ["C01"], "RegexComparison": ["C01"], "ExecWhere": ["C01"], "ValueTupleExpr": ["C01"],
-    "BinaryExpr": ["C02"], "UnaryExpr": ["C02"], "CaseExpr": ["C02"], "SelectExpr": ["C02", "C12"], "ExecSelect": ["C02", "C03"],
+    "BinaryExpr": ["C02"], "UnaryExpr": ["C02"], "CaseExpr": ["C02"], "SelectExpr": ["C02", "C12", "C20", "C14"], "ExecSelect": ["C02", "C03"],
     "LiteralExpr": ["C02"], "Expr": ["C02", "C01"], "ProcessAlias": ["C07", "C04"],
     "ExecGroupBy": ["C03"], "ExecHaving": ["C03"], "AggrFunExpr": ["C03"], "AggrFuncArgReader": ["C03"],
     "IsSelectAllAggregate": ["C03", "C06"], "AsNumber": ["C03", "C07"],
-    "ExecOrderBy": ["C05"], "BuildLimit": ["C05"], "BuildOrder": ["C05"], "exec": ["C05", "C08", "C01"],
-    "ExecDistinct": ["C06"], "BuildUnion": ["C06"],
-    "BuildCte": ["C07", "C11"], "BuildFromAliasedTable": ["C07"], "SubqueryExpr": ["C07", "C11"], "ExistExpr": ["C07", "C11"],
+    "ExecOrderBy": ["C05"], "BuildLimit": ["C05"], "BuildOrder": ["C05"], "exec": ["C05", "C08", "C01", "C18"],
+    "ExecDistinct": ["C06"], "BuildUnion": ["C06", "C07"],
+    "BuildCte": ["C07", "C11", "C10"], "BuildFromAliasedTable": ["C07"], "SubqueryExpr": ["C07", "C11"], "ExistExpr": ["C07", "C11"],
     "Scope": ["C07", "C11"], "BuildFrom": ["C07", "C04"], "BuildJoin": ["C04"], "BuildSelect": ["C07", "C05"], "BuildGroup": ["C03", "C19"],
-    "CopyQuery": ["C08"], "shareSingletons": ["C14"], "FunExpr": ["C14", "C19"], "FuncArgReader": ["C18", "C14"], "callRecovered": ["C14", "C10"],
+    "CopyQuery": ["C08"], "shareSingletons": ["C14"], "FunExpr": ["C14", "C19", "C10"], "FuncArgReader": ["C18", "C14"], "callRecovered": ["C14", "C10"],
     "New": ["C17", "C10"], "Exec": ["C02", "C10"], "execAndPostProcess": ["C14", "C10"], "AsError": ["C10"], "Prepare": ["C07"],
     "BuildColumnName": ["C03", "C05"], "BuildLiteral": ["C05"], "addPostProcessors": ["C14", "C13"],
     # heplers.go
